@@ -606,7 +606,12 @@ class SequenceEncoder(AbstractItemEncoder):
                     raise error.PyAsn1Error('Component name "%s" not found in %r' % (
                         namedType.name, value))
 
-                if namedType.isDefaulted and component == namedType.asn1Object:
+                # a Python value may denote the default in another form
+                # (bytes for text, None for NULL, a mapping for a record)
+                if namedType.isDefaulted and (
+                        component == namedType.asn1Object or
+                        encodeFun(component, namedType.asn1Object, **options) ==
+                        encodeFun(namedType.asn1Object, **options)):
                     if LOG:
                         LOG('not encoding DEFAULT component %r' % (namedType,))
                     continue
